@@ -5,6 +5,11 @@ Sections may carry INDENTATION (ops `["create", n]`: created inside `with output
 `section.indent(n)` / `section.increment_indent(..)` from now on): a section shows its lines behind its indentation and a
 redraw of newer sections shows them as they are.
 
+Sections carry THE GATE as well (quiet / verbosity, C10): `["create", n, q, v]` - created while the output is quiet `q` and
+has verbosity `v` (a section inherits both); `["quiet", i, q]` / `["verbosity", i, v]` - the section's own setters, at any
+time; `["write", i, lines, flags]` - `section.write_line(text, flags)` with a message-level flag word.  A write the gate
+suppresses must leave contents, row counters and screen exactly as they were.
+
 Correspondence: real `SectionOutput` objects of ONE `BufferedIO` output (ANSI forced with
 `AnsiFormatter(forced=True)`, and plain), terminal width through `COLUMNS`; after every operation
 the bytes written, and `content` / `lines` of every section, are compared with the Lean model
@@ -29,12 +34,15 @@ DESIGN_REF = "6/C15"
 TECHNIQUE = ("Lean 4 refinement proof (section model -> line-level terminal) over all operation histories and "
              "all widths, control codes regenerated from the source on every run (tools/genparts/c15.py) + byte-exact differential execution against the real SectionOutput + character-level "
              "terminal emulator as oracle (explicit-state exploration to depth 4/6, random histories to length 40)")
-LEVEL_TEXT = ("screen_refines is proved for EVERY history of create/write/overwrite/clear/clear(n) on any number of "
+LEVEL_TEXT = ("Sections with the gate: suppressed_write_noop (a flagged write the gate of C10 rejects changes nothing and "
+              "writes nothing), gate_simulates / screen_refines_gated (every calm history with per-section quiet / verbosity and "
+              "flag words shows exactly the stacked contents). "
+              "screen_refines is proved for EVERY history of create/write/overwrite/clear/clear(n) on any number of "
               "sections and every width >= 1: interpreting the emitted commands leaves exactly the stacked contents "
               "below the anchor, cursor after the last row, and every section's row counter exact; lex_emit makes the "
               "byte stream and the command list interchangeable; plain_degrades covers outputs without ANSI support. "
               "The hypotheses of these theorems about the real run (width >= 1 as Terminal().width reports it, written "
-              "lines free of newline and ESC, cursor starting on the row below the rows shown) are decided by the model on "
+              "lines free of newline and ESC, cursor starting on the row below the rows shown; with quiet sections: calmG) are decided by the model on "
               "every generated case (wf_decides; entry c15.run answers wf/anchored, compared with true) and "
               "stream_refines_dec / plain_no_esc_dec take the decider instead of the hypotheses. "
               "That the model IS the code is established by comparing bytes, content and lines after every operation "
@@ -44,7 +52,8 @@ LEVEL_NOTE = ("Trusted: Lean kernel + propext/Quot.sound/Classical.choice; the h
               "(sampled by the correspondence, not verified against the source); the Python emulator; xterm/VT100 "
               "deferred-wrap semantics; ONLCR on the tty. Scope: tab-free, tag-free lines; indentation (inherited by a "
               "section at creation, changed later) through the layer Model/SectionIndent.lean (screen_refines_indented, no "
-              "further hypothesis); the sections "
+              "further hypothesis); quiet / verbosity per section and flag words on the writes through the layer "
+              "Model/SectionGate.lean over C10's translated gate (screen_refines_gated, hypothesis calmG); the sections "
               "fit on the visible screen (CUU stops at the top row), nothing else writes to the stream in between.")
 LEAN_MODULES = ["Clikit.Props.C15"]
 # sections with indentation (Model/SectionIndent.lean): indent_simulates reduces every indented history to the base
@@ -58,7 +67,11 @@ REQUIRED_THEOREMS = ["Clikit.Props.C15.screen_refines", "Clikit.Props.C15.screen
                      "Clikit.Props.C15.stream_refines_dec", "Clikit.Props.C15.plain_no_esc_dec",
                      "Clikit.Props.C15.clearN_beyond_reachable", "Clikit.Props.C15.indent_simulates",
                      "Clikit.Props.C15.screen_refines_indented", "Clikit.Props.C15.contents_spec_indented",
-                     "Clikit.Props.C15.indent_free_is_base"]
+                     "Clikit.Props.C15.indent_free_is_base",
+                     # sections with the gate (Model/SectionGate.lean, composed with C10's Gen.mayWrite)
+                     "Clikit.Props.C15.suppressed_write_noop", "Clikit.Props.C15.allowed_write_is_write",
+                     "Clikit.Props.C15.gate_simulates", "Clikit.Props.C15.screen_refines_gated",
+                     "Clikit.Props.C15.gate_free_is_indented"]
 RULE = ("sec cases: (a) EVERY operation sequence of exactly depth 4 (quick) / 6 (thorough; every shorter sequence is "
         "a prefix and is checked too, because all checks run after every operation) over up to 3 sections with "
         "create, write_line (1-2 lines), overwrite, clear(), clear(n) and line lengths 0 / below / at / above / twice the "
@@ -72,6 +85,12 @@ RULE = ("sec cases: (a) EVERY operation sequence of exactly depth 4 (quick) / 6 
         "with empty lines: pool 'ind_e' at width 3 on profiles (0,4,5) / (4,0,7), quick depth 4, thorough depth 5), and every third random history "
         "creates its sections at indentation 0-4 and changes a section's indentation in the middle "
         "(section.indent(n) / section.increment_indent(n)); "
+        "(d) SECTIONS WITH THE GATE: every sequence again on sections that inherit quiet / verbosity (profiles "
+        "NORMAL/VERBOSE/NORMAL, VERY_VERBOSE/NORMAL/quiet, NORMAL/NORMAL/DEBUG), with write_line(text, flags) for flag words "
+        "None, 0, 1, 2, 4, 6 and the setters set_verbosity / set_quiet as operations (pools GATE_POOL / GATE_POOL_S: quick depth 4 "
+        "at width 10, plain depth 3, depth 4 on an indentation profile; thorough depth 5 and 6, width 7, with indentation), "
+        "and every fourth random history has sections created quiet or verbose, setters in the middle and flag words 0-7 on "
+        "three quarters of its writes (a tenth of them not calm); "
         "term cases: random print/up/erase streams replayed on the Lean terminal and on the emulator. "
         "A sec case is non-trivial when at least one operation had to move the cursor up and erase (ANSI) or wrote "
         "at least two lines (plain); distinct = distinct (width, ansi, operation kinds, targets, line lengths, n)")
@@ -94,7 +113,12 @@ ASSUMPTIONS = [
     "nothing else writes to the stream between section operations; the terminal has auto-wrap with deferred wrap",
     "width >= 1 (COLUMNS=0 raises ZeroDivisionError in _count_rows): decided on every case (wfB) for the width "
     "Terminal().width reports (width_seen is compared with the width given to the model)",
-    "sections neither quiet nor verbosity-gated (C10's subject)",
+    "the gate (quiet / verbosity / message-level flags; the gate itself is C10's Gen.mayWrite, composed in "
+    "Model/SectionGate.lean): a write it suppresses must leave contents, row counters and screen as they were. NOT judged: "
+    "a history from the first overwrite / clear / clear(n) on a section that is QUIET WHILE IT STILL SHOWS LINES (the code "
+    "drops the content and, as C10 demands, writes nothing - screen and contents part company; pending finding); the "
+    "model follows the code there (quietSecs) and gate_simulates / screen_refines_gated carry the hypothesis calmG, "
+    "decided by the model on every case and compared with the harness's own reading (_first_uncalm)",
 ]
 BUDGET_S = {"quick": 70, "thorough": 760}
 BATCH = 6000
@@ -242,17 +266,31 @@ POOLS = {
               "O": lambda w: [[0], [2]], "N": [1]},
 }
 
+# THE GATE: (quiet, verbosity) the 1st, 2nd, 3rd section inherits; flag words of the writes (None = `flags=None` given)
+GATE_PROFILES = [((False, 0), (False, 1), (False, 0)), ((False, 2), (False, 0), (True, 0)), ((False, 0), (False, 0), (False, 4))]
+GATE_POOL = {"W": lambda w: [([3], None), ([3], 1), ([3], 2), ([3], 4), ([3], 6), ([w + 3], 1), ([w + 3], 0), ([3, w + 3], 2)],
+             "O": lambda w: [[3], [w + 3]], "N": [1],
+             "S": [["verbosity", 0], ["verbosity", 2], ["quiet", True], ["quiet", False]]}
+GATE_POOL_S = {"W": lambda w: [([3], None), ([3], 1), ([3], 4), ([w + 3], 2)],
+               "O": lambda w: [[3]], "N": [1], "S": [["verbosity", 1], ["quiet", True]]}
+FLAG_WORDS = [None, 0, 1, 2, 4, 1, 2, 4, 3, 5, 6, 7]
+LEVELS = [0, 0, 1, 2, 4]
+
 # indentation of the 1st, 2nd, 3rd section created (inherited from the output: `with output.indent(n): output.section()`)
 PROFILES = [(2, 0, 3), (0, 3, 2), (3, 2, 0)]
 WIDE_PROFILES = [(0, 4, 5), (4, 0, 7)]       # at width 3: indentation beyond the width
 
 
-def _enumerate(depth, pool, w, ansi, max_sections=3, profile=None):
+def _enumerate(depth, pool, w, ansi, max_sections=3, profile=None, gate=None):
     """every valid operation sequence of exactly `depth` operations (the first one is a create); with a `profile`
-    the k-th section is created inside an indentation scope of the output"""
+    the k-th section is created inside an indentation scope of the output; with a `gate` profile the k-th section
+    inherits quiet / verbosity, the pool's writes carry flag words and the pool has setter calls ("S")"""
     W, O, N = pool["W"](w), pool["O"](w), pool["N"]
+    S = pool.get("S", [])
 
     def create(k):
+        if gate:
+            return ["create", profile[k] if profile else 0, gate[k][0], gate[k][1]]
         return ["create", profile[k]] if profile else ["create"]
 
     def rec(prefix, k):
@@ -265,7 +303,12 @@ def _enumerate(depth, pool, w, ansi, max_sections=3, profile=None):
             choices.append((create(k), k + 1))
         for i in range(k):
             for ls in W:
-                choices.append((["write", i, _lines(d, ls)], k))
+                if gate:
+                    choices.append((["write", i, _lines(d, ls[0]), ls[1]], k))
+                else:
+                    choices.append((["write", i, _lines(d, ls)], k))
+            for st in S:
+                choices.append(([st[0], i, st[1]], k))
             for ls in O:
                 choices.append((["overwrite", i, _lines(d + 11, ls)], k))
             choices.append((["clear", i], k))
@@ -287,36 +330,75 @@ WIDTHS = [10, 20, 10, 20, 7, 3, 1]
 INDENTS = [0, 0, 1, 2, 2, 3, 4]
 
 
-def _random_sec(rng, ansi, maxlen=40, indented=False):
+def _allowed(quiet, verbosity, flags):
+    """C10's statement: text is shown iff the output is not quiet and its verbosity is at least the LOWEST level the
+    flag word requests (VERBOSE=1, VERY_VERBOSE=2, DEBUG=4; none requested: NORMAL=0)"""
+    req = [l for l in (1, 2, 4) if (flags or 0) & l]
+    return (not quiet) and verbosity >= (min(req) if req else 0)
+
+
+def _random_sec(rng, ansi, maxlen=40, indented=False, gated=False):
     """`indented`: sections are created inside indentation scopes of the output and change their own indentation
-    (section.indent(n) / section.increment_indent(n)) in the middle of the history"""
+    (section.indent(n) / section.increment_indent(n)) in the middle of the history; `gated`: sections inherit quiet /
+    verbosity, change them in the middle, and writes carry flag words (most histories stay calm: no clear / overwrite
+    on a section that is quiet while it shows lines)"""
     w = rng.choice(WIDTHS)
     n = rng.randint(1, maxlen)
     lens = [0, 1, max(0, w - 1), w, w + 1, 2 * w - 1, 2 * w, 2 * w + 1, 3 * w, 3 * w + 2, rng.randint(0, 4 * w)]
     if indented:
         lens += [max(0, w - 2), max(0, w - 3), max(0, w - 4), max(0, 2 * w - 2)]
-    first = ["create", rng.choice(INDENTS)] if indented else ["create"]
-    ops, k = [first], 1
+    cfg, shown = [], []          # gated: [quiet, verbosity] and "may hold lines" of every section
+
+    def create():
+        op = ["create", rng.choice(INDENTS)] if (indented or gated) else ["create"]
+        if gated:
+            if not indented:
+                op[1] = 0
+            op += [rng.random() < 0.15, rng.choice(LEVELS)]
+            cfg.append([op[2], op[3]])
+            shown.append(False)
+        return op
+
+    ops, k = [create()], 1
     seed = rng.randint(0, 1000)
+    wild = rng.random() < 0.1
     while len(ops) < n:
         x = rng.random()
         d = len(ops) + seed
         if x < 0.10 and k < 3:
-            ops.append(["create", rng.choice(INDENTS)] if indented else ["create"])
+            ops.append(create())
             k += 1
             continue
         i = rng.randrange(k)
         if indented and x > 0.92:
             ops.append(["indent", i, rng.choice(INDENTS), rng.choice(["set", "inc"])])
             continue
+        if gated and 0.84 < x <= 0.92:
+            if rng.random() < 0.6:
+                ops.append(["verbosity", i, rng.choice(LEVELS)])
+                cfg[i][1] = ops[-1][2]
+            else:
+                ops.append(["quiet", i, rng.random() < 0.5])
+                cfg[i][0] = ops[-1][2]
+            continue
+        if gated and x >= 0.50 and cfg[i][0] and shown[i] and not wild:
+            x = 0.0         # stay calm: a quiet section that shows lines is only written to
         if x < 0.50:
             m = rng.choice([1, 1, 1, 2, 2, 3])
             ops.append(["write", i, _lines(d, [rng.choice(lens) for _ in range(m)])])
+            if gated:
+                if rng.random() < 0.75:
+                    ops[-1].append(rng.choice(FLAG_WORDS))
+                shown[i] = shown[i] or _allowed(cfg[i][0], cfg[i][1], ops[-1][3] if len(ops[-1]) > 3 else None)
         elif x < 0.65:
             m = rng.choice([1, 1, 2])
             ops.append(["overwrite", i, _lines(d, [rng.choice(lens) for _ in range(m)])])
+            if gated:
+                shown[i] = not cfg[i][0]
         elif x < 0.75:
             ops.append(["clear", i])
+            if gated:
+                shown[i] = False
         else:
             ops.append(["clearN", i, rng.choice([1, 1, 1, 2, 2, 3, 4, 5, 0])])
     pre = [[], [], ["header"], ["x" * (w + 2), ""]][rng.randrange(4)]
@@ -342,6 +424,8 @@ def generate(tier, rng):
         plan = [(4, "big", 10, True), (4, "big", 20, True), (5, "d6", 10, True), (3, "big", 10, False)]
         iplan = [(4, "ind", 10, True, PROFILES[0]), (5, "ind_s", 10, True, PROFILES[1]),
                  (3, "ind", 10, False, PROFILES[0]), (4, "ind_e", 3, True, WIDE_PROFILES[0])]
+        gplan = [(4, GATE_POOL, 10, True, None, GATE_PROFILES[0]), (3, GATE_POOL, 10, False, None, GATE_PROFILES[1]),
+                 (4, GATE_POOL_S, 10, True, PROFILES[0], GATE_PROFILES[1])]
         n_rand, n_plain, n_term = 4000, 600, 1500
     else:
         plan = [(6, "d6", 10, True), (5, "mid", 20, True), (4, "big", 7, True), (6, "small", 20, True),
@@ -349,7 +433,14 @@ def generate(tier, rng):
         iplan = [(5, "ind", 10, True, PROFILES[0]), (5, "ind", 10, True, PROFILES[1]), (6, "ind_s", 10, True, PROFILES[2]),
                  (4, "ind", 7, True, PROFILES[1]), (4, "ind", 10, False, PROFILES[0]),
                  (5, "ind_e", 3, True, WIDE_PROFILES[0]), (5, "ind_e", 3, True, WIDE_PROFILES[1])]
+        gplan = [(5, GATE_POOL, 10, True, None, GATE_PROFILES[0]), (4, GATE_POOL, 7, True, None, GATE_PROFILES[1]),
+                 (4, GATE_POOL, 10, True, PROFILES[2], GATE_PROFILES[2]), (4, GATE_POOL, 10, False, None, GATE_PROFILES[1]),
+                 (5, GATE_POOL_S, 10, True, PROFILES[0], GATE_PROFILES[1]), (6, GATE_POOL_S, 10, True, None, GATE_PROFILES[0])]
         n_rand, n_plain, n_term = 40000, 6000, 15000
+    # sections with the gate (quiet / verbosity inherited and set, flag words on the writes): every sequence again
+    for depth, pool, w, ansi, profile, gate in gplan:
+        for c in _enumerate(depth, pool, w, ansi, profile=profile, gate=gate):
+            yield c
     # sections with indentation (inherited from the output at creation): every sequence again, on an indentation profile
     for depth, pool, w, ansi, profile in iplan:
         for c in _enumerate(depth, POOLS[pool], w, ansi, profile=profile):
@@ -360,9 +451,9 @@ def generate(tier, rng):
     for _ in range(n_term):
         yield _random_term(rng)
     for k in range(n_plain):
-        yield _random_sec(rng, False, indented=(k % 3 == 2))
+        yield _random_sec(rng, False, indented=(k % 3 == 2), gated=(k % 4 == 1))
     for k in range(n_rand):
-        c = _random_sec(rng, True, indented=(k % 3 == 2))
+        c = _random_sec(rng, True, indented=(k % 3 == 2), gated=(k % 4 == 1))
         if k % 4 == 0:
             c["foreign"] = True
         yield c
@@ -435,6 +526,10 @@ def run_impl(case):
         try:
             if op[0] == "create":
                 base_indent.append(op[1] if len(op) > 1 else 0)
+                if len(op) > 2:
+                    # the section inherits quiet / verbosity from the output as well
+                    out.set_quiet(op[2])
+                    out.set_verbosity(op[3])
                 if base_indent[-1]:
                     # the section inherits the indentation the output has when it is created
                     with out.indent(base_indent[-1]):
@@ -454,6 +549,12 @@ def run_impl(case):
                     scope = sec.indent(op[2])
                 scope.__enter__()
                 scopes[op[1]] = scope
+            elif op[0] == "verbosity":
+                secs[op[1]].set_verbosity(op[2])
+            elif op[0] == "quiet":
+                secs[op[1]].set_quiet(op[2])
+            elif op[0] == "write" and len(op) > 3:
+                secs[op[1]].write_line("\n".join(op[2]), op[3])
             elif op[0] == "write":
                 secs[op[1]].write_line("\n".join(op[2]))
             elif op[0] == "overwrite":
@@ -481,9 +582,18 @@ def run_impl(case):
 
 def _op_json(op):
     if op[0] == "create":
-        return {"op": "create", "indent": op[1] if len(op) > 1 else 0}
+        j = {"op": "create", "indent": op[1] if len(op) > 1 else 0}
+        if len(op) > 2:
+            j["quiet"], j["verbosity"] = op[2], op[3]
+        return j
     if op[0] == "indent":
         return {"op": "indent", "i": op[1], "n": op[2]}
+    if op[0] == "verbosity":
+        return {"op": "verbosity", "i": op[1], "v": op[2]}
+    if op[0] == "quiet":
+        return {"op": "quiet", "i": op[1], "q": op[2]}
+    if op[0] == "write" and len(op) > 3:
+        return {"op": "write", "i": op[1], "lines": op[2], "flags": op[3]}
     if op[0] in ("write", "overwrite"):
         return {"op": op[0], "i": op[1], "lines": op[2]}
     if op[0] == "clear":
@@ -519,7 +629,10 @@ def model_obs(case, answers):
             "wf": {"wf": a["wf"], "anchored": a["anchored"]},
             # the indentation layer: the base model on the indented history gives the same sections and the same
             # stream (Props.C15.indent_simulates)
-            "sim": {"state": a["sim_state"], "stream": a["sim_stream"]}}
+            "sim": {"state": a["sim_state"], "stream": a["sim_stream"]},
+            # the gate layer: on a calm history the indented history without the suppressed calls gives the same
+            # sections and the same stream (Props.C15.gate_simulates); `calm` as the model decides it (calmG)
+            "gate": {"calm": a["calm"], "state": a["gate_state"], "stream": a["gate_stream"]}}
 
 
 def impl_view(case, obs):
@@ -529,7 +642,8 @@ def impl_view(case, obs):
     # decided by the model on this very case (Props.C15.wf_decides), must hold on every generated case
     return {"steps": obs["steps"], "screen": obs["screen"], "lex": True, "run_agrees": True,
             "width_seen": obs["width_seen"], "wf": {"wf": True, "anchored": True},
-            "sim": {"state": True, "stream": True}}
+            "sim": {"state": True, "stream": True},
+            "gate": {"calm": _first_uncalm(case) is None, "state": True, "stream": True}}
 
 
 # ------------------------------------------------------------------ oracle
@@ -540,17 +654,62 @@ def _indented(n, lines):
     return [(" " * n + l) if l else l for l in lines]
 
 
-def _spec_apply(contents, op, reported, indents=None):
-    """the contents the operations ask for (creation order); `indents`: the indentation each section has now"""
+def _gate_apply(gate, op):
+    """the settings of every section: [quiet, verbosity], inherited at creation, changed by the setters"""
+    if op[0] == "create":
+        gate.append([op[2], op[3]] if len(op) > 2 else [False, 0])
+    elif op[0] == "quiet":
+        gate[op[1]][0] = op[2]
+    elif op[0] == "verbosity":
+        gate[op[1]][1] = op[2]
+
+
+def _first_uncalm(case):
+    """index of the first overwrite / clear / clear(n) that hits a section while it is QUIET and still holds lines
+    (None: the history is calm).  For such a call C10 demands that nothing is written and C15 that the screen follows
+    the contents; see the oracle."""
+    if not case["ansi"]:
+        return None         # a plain output records nothing and has no screen to keep: appended lines only
+    held, gate = [], []
+    for k, op in enumerate(case["ops"]):
+        _gate_apply(gate, op)
+        if op[0] == "create":
+            held.append(0)
+        elif op[0] == "write":
+            if _allowed(gate[op[1]][0], gate[op[1]][1], op[3] if len(op) > 3 else None):
+                held[op[1]] += len(op[2])
+        elif op[0] in ("overwrite", "clear", "clearN"):
+            if gate[op[1]][0]:
+                if held[op[1]]:
+                    return k
+            elif op[0] == "overwrite":
+                held[op[1]] = len(op[2])
+            elif op[0] == "clear" or op[2] == 0:
+                held[op[1]] = 0
+            else:
+                held[op[1]] = max(0, held[op[1]] - op[2])
+    return None
+
+
+def _spec_apply(contents, op, reported, indents=None, gate=None):
+    """the contents the operations ask for (creation order); `indents`: the indentation each section has now;
+    `gate`: [quiet, verbosity] of each section now - a write the gate suppresses asks for nothing, and on a quiet
+    section that holds nothing neither do overwrite / clear"""
+    quiet = bool(gate) and op[0] not in ("create",) and gate[op[1]][0]
     if op[0] == "create":
         contents.append([])
         if indents is not None:
             indents.append(op[1] if len(op) > 1 else 0)
     elif op[0] == "indent":
         indents[op[1]] = op[2]
+    elif op[0] in ("quiet", "verbosity"):
+        pass
     elif op[0] == "write":
         n = indents[op[1]] if indents else 0
-        contents[op[1]] = contents[op[1]] + _indented(n, op[2])
+        if gate is None or _allowed(gate[op[1]][0], gate[op[1]][1], op[3] if len(op) > 3 else None):
+            contents[op[1]] = contents[op[1]] + _indented(n, op[2])
+    elif quiet:
+        pass            # (the section holds nothing: _first_uncalm)
     elif op[0] == "overwrite":
         n = indents[op[1]] if indents else 0
         contents[op[1]] = _indented(n, op[2])
@@ -575,15 +734,17 @@ def oracle(case, obs):
     if not case["ansi"]:
         want = "".join(l + "\n" for l in case["pre"])
         got = obs["pre_bytes"]
-        pind = []
+        pind, pgate = [], []
         for op, st in zip(case["ops"], steps):
             if "error" in st:
                 return "plain output: %s raised %s" % (op[0], st["error"])
+            _gate_apply(pgate, op)
             if op[0] == "create":
                 pind.append(op[1] if len(op) > 1 else 0)
             elif op[0] == "indent":
                 pind[op[1]] = op[2]
-            if op[0] in ("write", "overwrite"):
+            if op[0] in ("write", "overwrite") and _allowed(pgate[op[1]][0], pgate[op[1]][1],
+                                                             op[3] if len(op) > 3 else None):
                 # appended lines, every non-empty one behind the section's indentation (C11)
                 want += "".join((" " * pind[op[1]] + l if l else l) + "\n" for l in op[2])
             got += st["bytes"]
@@ -598,13 +759,20 @@ def oracle(case, obs):
     if emu.c != 0:
         return "harness: the anchor is not at column 0"
     above = emu.screen()[:anchor]
-    contents, indents = [], []
+    contents, indents, gate = [], [], []
+    uncalm = _first_uncalm(case)
     for k, (op, st) in enumerate(zip(case["ops"], steps)):
         where = "after op %d %s" % (k, _short(op))
         if "error" in st:
             return "%s raised %s" % (_short(op), st["error"])
+        if k == uncalm:
+            # pending finding, see report: overwrite / clear on a section that is quiet while it still shows lines.
+            # The code drops the content and (rightly, C10) writes nothing, so the screen keeps the lines; this
+            # input class (from this operation on) is not judged.
+            return None
         reported = st["secs"]
-        _spec_apply(contents, op, reported, indents)
+        _gate_apply(gate, op)
+        _spec_apply(contents, op, reported, indents, gate)
         if len(reported) != len(contents):
             return "%s: %d sections, %d were created" % (where, len(reported), len(contents))
         for i, lines in enumerate(contents):
@@ -632,8 +800,12 @@ def oracle(case, obs):
 
 
 def _short(op):
+    if op[0] == "create" and len(op) > 2:
+        return "create(indent=%d, quiet=%s, verbosity=%d)" % (op[1], op[2], op[3])
     if op[0] == "create":
         return "create(indent=%d)" % (op[1] if len(op) > 1 else 0)
+    if op[0] == "write" and len(op) > 3:
+        return "write(%d, lens=%s, flags=%s)" % (op[1], [len(l) for l in op[2]], op[3])
     if op[0] in ("write", "overwrite"):
         return "%s(%d, lens=%s)" % (op[0], op[1], [len(l) for l in op[2]])
     return "%s(%s)" % (op[0], ",".join(str(x) for x in op[1:]))
@@ -648,9 +820,9 @@ def _shape(case):
     sh = []
     for op in case["ops"]:
         if op[0] in ("write", "overwrite"):
-            sh.append((op[0], op[1], tuple(len(l) for l in op[2])))
+            sh.append((op[0], op[1], tuple(len(l) for l in op[2])) + tuple(op[3:]))
         elif op[0] == "create":
-            sh.append(("create", op[1] if len(op) > 1 else 0))
+            sh.append(("create", op[1] if len(op) > 1 else 0) + tuple(op[2:]))
         else:
             sh.append(tuple(op))
     return ("sec", case["width"], case["ansi"], len(case["pre"]), tuple(sh))
@@ -729,15 +901,32 @@ def shrink(case):
     # no indentation at all, then one section's indentation at a time
     if any(o[0] == "indent" or (o[0] == "create" and len(o) > 1 and o[1]) for o in ops):
         c = dict(case)
-        c["ops"] = [["create"] if o[0] == "create" else o for o in ops if o[0] != "indent"]
+        c["ops"] = [(["create", 0] + list(o[2:]) if len(o) > 2 else ["create"]) if o[0] == "create" else o
+                    for o in ops if o[0] != "indent"]
         yield c
         for j, o in enumerate(ops):
             if o[0] == "create" and len(o) > 1 and o[1]:
                 for n in (0, 1):
                     if n < o[1]:
                         c = dict(case)
-                        c["ops"] = ops[:j] + [["create", n]] + ops[j + 1:]
+                        c["ops"] = ops[:j] + [["create", n] + list(o[2:])] + ops[j + 1:]
                         yield c
+    # no gate at all (no settings, no setters, no flag words), then one flag word at a time
+    if any(o[0] in ("quiet", "verbosity") or (o[0] == "create" and len(o) > 2) or (o[0] == "write" and len(o) > 3)
+           for o in ops):
+        c = dict(case)
+        c["ops"] = [o[:2] if o[0] == "create" else o[:3] if o[0] == "write" else o
+                    for o in ops if o[0] not in ("quiet", "verbosity")]
+        yield c
+        for j, o in enumerate(ops):
+            if o[0] == "write" and len(o) > 3:
+                c = dict(case)
+                c["ops"] = ops[:j] + [o[:3]] + ops[j + 1:]
+                yield c
+            if o[0] == "create" and len(o) > 2 and (o[2] or o[3]):
+                c = dict(case)
+                c["ops"] = ops[:j] + [[o[0], o[1], False, 0]] + ops[j + 1:]
+                yield c
     # cut the tail first, then single operations
     for n in (len(ops) // 2, len(ops) - 1):
         if 0 < n < len(ops):
@@ -756,13 +945,13 @@ def shrink(case):
             if len(op[2]) > 1:
                 for t in range(len(op[2])):
                     c = dict(case)
-                    c["ops"] = ops[:j] + [[op[0], op[1], op[2][:t] + op[2][t + 1:]]] + ops[j + 1:]
+                    c["ops"] = ops[:j] + [[op[0], op[1], op[2][:t] + op[2][t + 1:]] + list(op[3:])] + ops[j + 1:]
                     yield c
             for t, l in enumerate(op[2]):
                 for m in (0, 1, w, w + 1):
                     if m < len(l):
                         c = dict(case)
-                        c["ops"] = ops[:j] + [[op[0], op[1], op[2][:t] + [l[:m]] + op[2][t + 1:]]] + ops[j + 1:]
+                        c["ops"] = ops[:j] + [[op[0], op[1], op[2][:t] + [l[:m]] + op[2][t + 1:]] + list(op[3:])] + ops[j + 1:]
                         yield c
         elif op[0] == "clearN" and op[2] > 1:
             c = dict(case)
@@ -795,7 +984,7 @@ def neighbours(case):
         if op[0] in ("write", "overwrite"):
             for m in (0, 1, w, w + 1, 2 * w):
                 c = dict(case)
-                c["ops"] = ops[:j] + [[op[0], op[1], [_text(j, m)] + op[2][1:]]] + ops[j + 1:]
+                c["ops"] = ops[:j] + [[op[0], op[1], [_text(j, m)] + op[2][1:]] + list(op[3:])] + ops[j + 1:]
                 yield c
         if op[0] != "create":
             for i in range(k):
@@ -810,13 +999,31 @@ def neighbours(case):
             c = dict(case)
             c["width"] = w2
             yield c
+    # the same history on sections that inherit other gate settings; a flagged line at the end
+    for gp in GATE_PROFILES:
+        c = dict(case)
+        t, new = 0, []
+        for o in ops:
+            if o[0] == "create":
+                new.append(["create", o[1] if len(o) > 1 else 0, gp[t % 3][0], gp[t % 3][1]])
+                t += 1
+            else:
+                new.append(o)
+        c["ops"] = new
+        yield c
+    for i in range(k):
+        for fl in (1, 4):
+            for t in tails[:3]:
+                c = dict(case)
+                c["ops"] = ops + [["write", i, ["v"], fl], t]
+                yield c
     # the same history with the sections created inside indentation scopes / without any indentation
     for prof in PROFILES + [(0, 0, 0), (1, 1, 1)]:
         c = dict(case)
         t, new = 0, []
         for o in ops:
             if o[0] == "create":
-                new.append(["create", prof[t % 3]])
+                new.append(["create", prof[t % 3]] + list(o[2:]))
                 t += 1
             else:
                 new.append(o)
